@@ -1,0 +1,25 @@
+//go:build verif
+
+// Contracts for package x/fdsmr (comment-only; read by /verif/cmd/govc).
+package fdsmr
+
+// The bonder, abstractly (C38): gmap("bonded", bonder) is the set of transaction ids holding a bond.
+// internal/chain.Bonder is verified against the concrete accounting (fee record present <=> bonded).
+//@ func Bonder.Bond
+//@   noframe
+//@   modifies gmap("bonded", self)[]
+//@   ensures result0 ==> err == nil && has(gmap("bonded", self), str(dsmr.Tx.GetID(tx)))
+//@   ensures !result0 ==> has(gmap("bonded", self), str(dsmr.Tx.GetID(tx))) == old(has(gmap("bonded", self), str(dsmr.Tx.GetID(tx))))
+//@   ensures forall q string :: q != str(dsmr.Tx.GetID(tx)) ==> has(gmap("bonded", self), q) == old(has(gmap("bonded", self), q))
+//@ func DSMR.BuildChunk
+//@   noframe
+
+// BuildChunk (C38): every transaction that acquires a bond in this call is tracked in the pending
+// expiry heap when the call returns -- on EVERY return, also when a later Bond or the inner
+// BuildChunk fails -- because only tracked transactions are ever handed to Unbond.
+//@ func (*Node).BuildChunk props C38
+//@   noframe
+//@   modifies gmap("bonded", n.bonder)[], gmap("items", n.pending)[]
+//@   loop 1 invariant 0 <= idx1 && idx1 <= len(txs)
+//@   loop 1 invariant forall q string :: has(gmap("bonded", n.bonder), q) && !old(has(gmap("bonded", n.bonder), q)) ==> has(gmap("items", n.pending), q)
+//@   ensures forall q string :: has(gmap("bonded", n.bonder), q) && !old(has(gmap("bonded", n.bonder), q)) ==> has(gmap("items", n.pending), q)
